@@ -239,6 +239,7 @@ func c19unit(e common.Env, p *common.Part, kind string, nts []nt, reps int) {
 				continue
 			}
 			classificationOracle(w, p, label)
+			disguisedEnvelopeOracle(w, p, label)
 			// (b) digests
 			digs := c19digests(rng)
 			if kind == "ecdsa" {
@@ -252,6 +253,7 @@ func c19unit(e common.Env, p *common.Part, kind string, nts []nt, reps int) {
 				p.Case(fmt.Sprintf("%s digest#%d", label, di), true)
 				if di == 0 {
 					classificationOracle(w, p, label)
+					disguisedEnvelopeOracle(w, p, label)
 				}
 			}
 			// (c) one signer asks for a different digest
